@@ -215,6 +215,8 @@ where
 
         #[cfg(feature = "statistics")]
         STAT_HITS.fetch_add(1, std::sync::atomic::Ordering::Relaxed);
+        #[cfg(oxidd_verif)]
+        oxidd_core::verif::CACHE_HITS.fetch_add(1, std::sync::atomic::Ordering::Relaxed);
 
         let (edge_values, remaining) = data.as_slice().split_at(E);
         let numeric_values = &remaining[..N];
@@ -253,6 +255,10 @@ where
             operands.0.len() + operands.1.len() + values.0.len() + values.1.len() <= ENTRY_CAP
         );
 
+        #[cfg(oxidd_verif)]
+        if self.is_occupied() {
+            oxidd_core::verif::CACHE_EVICTIONS.fetch_add(1, std::sync::atomic::Ordering::Relaxed);
+        }
         self.clear();
 
         #[cfg(feature = "statistics")]
@@ -405,6 +411,8 @@ where
         {
             return None;
         }
+        #[cfg(oxidd_verif)]
+        oxidd_core::verif::yield_point("cache:get:before-try-lock");
         self.bucket(operator, operands)
             .try_lock()?
             .get(manager, operator, operands)
@@ -428,6 +436,8 @@ where
         {
             return;
         }
+        #[cfg(oxidd_verif)]
+        oxidd_core::verif::yield_point("cache:add:before-try-lock");
         if let Some(mut entry) = self.bucket(operator, operands).try_lock() {
             entry.set(operator, operands, values);
         }
